@@ -51,9 +51,17 @@ type Result struct {
 	MaxAllocNum  uint64 // the largest allocation seen for a read that was within the bound ...
 	MaxAllocLen  int    // ... and the file length it belongs to
 	ModelSkipped int
+	SkipReasons  []string
 	Harness      []string
 	Sample       map[string]any
 	Evaluations  int
+}
+
+func (r *Result) skip(why string) {
+	r.ModelSkipped++
+	if len(r.SkipReasons) < 3 {
+		r.SkipReasons = append(r.SkipReasons, clip(why, 160))
+	}
 }
 
 func newResult() *Result {
@@ -364,7 +372,7 @@ func (w *Worker) evalBytes(c *Case, res *Result) {
 	if c.Benc {
 		md, merr := w.model.decode(c.Bytes)
 		if merr != "" {
-			res.ModelSkipped++
+			res.skip(merr)
 			w.tr("  model: %s", merr)
 			return
 		}
@@ -377,7 +385,7 @@ func (w *Worker) evalBytes(c *Case, res *Result) {
 			mo, err = modelOutcome(ans)
 		}
 		if !ok || err != nil {
-			res.ModelSkipped++
+			res.skip(ans)
 			w.tr("  model: %s", clip(ans, 200))
 			return
 		}
@@ -500,7 +508,7 @@ func (w *Worker) evalSeq(c *Case, res *Result) {
 	}
 	// ---- the model on the same sequence, compared write by write
 	if e := w.model.fsSet(c.PreState, c.PreTmp); e != "" {
-		res.ModelSkipped++
+		res.skip(e)
 		return
 	}
 	for i, es := range c.Seq {
@@ -511,13 +519,13 @@ func (w *Worker) evalSeq(c *Case, res *Result) {
 		wantS := canon(es)
 		mb, e := w.model.fsWrite(es)
 		if e != "" {
-			res.ModelSkipped++
+			res.skip(e)
 			w.tr("  model: %s", e)
 			return
 		}
 		mr, e := w.model.fsRead()
 		if e != "" {
-			res.ModelSkipped++
+			res.skip(e)
 			w.tr("  model: %s", e)
 			return
 		}
@@ -539,7 +547,7 @@ func (w *Worker) evalSeq(c *Case, res *Result) {
 			// the model decodes what the real store wrote (whatever order Go's map iteration took)
 			ans, ok := w.model.ask("V " + hexb(obs[i].File))
 			if !ok {
-				res.ModelSkipped++
+				res.skip(ans)
 				w.tr("  model: %s", clip(ans, 200))
 			} else if mo, err := modelOutcome(ans); err == nil {
 				res.Ties["model_decodes_real_file"]++
@@ -611,7 +619,7 @@ func (w *Worker) evalPerm(c *Case, res *Result) {
 		}
 		mb, e := w.model.encode(pe)
 		if e != "" {
-			res.ModelSkipped++
+			res.skip(e)
 			return
 		}
 		mm, e := w.model.toMap(pe)
